@@ -211,7 +211,10 @@ def fault_battery():
     firsts = {"YQ": ["Y", "Q"], "Y": ["Y"], "QY": ["Q", "Y"]}
     for fname, first in firsts.items():
         devs = {"swap": list(reversed(first)), "drop-one": first[:-1], "drop-all": [], "add": first + ["Q" if "Q" not in first else "Y"],
-                "dup": first + [first[-1]], "substitute": [("Q" if x == "Y" else "Y") for x in first][:1] + first[1:]}
+                "dup": first + [first[-1]], "substitute": [("Q" if x == "Y" else "Y") for x in first][:1] + first[1:],
+                # signals the test case does not know (`?k` = foreign signal k of the replay driver)
+                "add-foreign-end": first + ["?0"], "add-foreign-front": ["?1"] + first, "add-foreign-middle": first[:1] + ["?0"] + first[1:],
+                "substitute-foreign": ["?0"] + first[1:], "foreign-input": first + ["?2"]}
         for dname, lay in devs.items():
             if lay == first:
                 continue
@@ -406,6 +409,9 @@ def virtual_battery():
                           answers={0: [3, 5], 1: [3, 5], 2: [0, "Z"], 3: [0, 4]}, default_answer=[0, 0], stop_on_err=False,
                           expect={"items": ["row", "err", "row"]},
                           note="declare V = %s with B = 0 and C = Z is an error item: no operand read is skipped" % expr))
+    b.append(Scenario("A B S_out\ndeclare S = B + 1;\n0 X 4\n", S + [("out", "S_out", 8)], default_answer=[1, 0, 4],
+                      expect={"row_expected": [["X", "X", "4", "X"]]},
+                      note="a declared signal without a column expects X even if a pin is called <name>_out"))
     b.append(Scenario("A B V\ndeclare V = B * 2;\n1 X X\n1 X X\n1 X X\n", S, answers={1: [3, 0], 2: [4, 0], 3: [5, 0]},
                       default_answer=[0, 0], expect={"row_outputs": [["3", "0", "6"], ["4", "0", "8"], ["5", "0", "10"]]},
                       note="rows that repeat their inputs still see the row's own outputs"))
@@ -621,6 +627,14 @@ def random_battery():
     b.append(Scenario(hdr + "0 (random(%s))\nloop(i,2)\nresetRandom;\n0 (random(%s))\nend loop\n" % ((BIG,) * 2), S,
                       expect={"replay": [(1, 0), (2, 0)], "range": (0, 1 << 62)}, note="resetRandom inside a loop"))
     b.append(Scenario(hdr + "0 (random(2))\n0 (random(3))\n0 (random(2))\n", S, expect={"range": (0, 3)}, note="small bounds stay in range"))
+    b.append(Scenario(hdr + "0 (ite(0, random(%s), 7))\n0 (random(%s))\nresetRandom;\n0 (random(%s))\n" % ((BIG,) * 3), S,
+                      expect={"replay": [(2, 1)], "range": (0, 1 << 62)}, note="no draw in the unselected then-branch of ite"))
+    Sb = [("in", "I0", 1, 0), ("in", "I1", 1, 0), ("in", "I2", 1, 0)]
+    b.append(Scenario("I0 I1 I2 V\ndeclare V = 0;\n0 0 0 (random(%s))\n0 0 0 (random(%s))\nresetRandom;\nbits(3, random(%s)) (random(%s))\n"
+                      % ((BIG,) * 4), Sb, expect={"replay": [(2, 1)]}, note="bits(k, e) evaluates e - and draws - once, not once per bit"))
+    b.append(Scenario(hdr + "0 (random(%s))\nloop(i,3)\nresetRandom;\n0 (random(%s))\nend loop\nlet k = 0;\nwhile(k < 2)\nresetRandom;\nlet k = k + 1;\n0 (random(%s))\nend while\n"
+                      % ((BIG,) * 3), S, expect={"replay": [(1, 0), (2, 0), (3, 0), (4, 0), (5, 0)], "range": (0, 1 << 62)},
+                      note="resetRandom as the first statement of a loop / while body"))
     # second round: bounds just above 2^32 (many draws), a draw inside a declared signal, several resets in one run
     for bound in (0x100000001, 3 << 31, (1 << 33) + 5, (1 << 63) - 1):
         b.append(Scenario(hdr + "loop(i,300)\n0 (random(%d))\nend loop\n" % bound, S, max_rows=400,
@@ -745,6 +759,9 @@ def malformed_battery():
         ("A B A\n1 1 1\n", "separated duplicate header names"),
         ("CLK D Q CLK\n1 1 1 1\n", "separated duplicate header names (4)"),
         ("A B\ndeclare V = 1;\ndeclare V = 2;\n1 1\n", "duplicate declare"),
+        ("A B\ndeclare V = 1;\ndeclare V = 1;\n1 1\n", "duplicate declare with the same expression"),
+        ("A B\ndeclare V = (A+1);\ndeclare V = A + 0x1;\n1 1\n", "duplicate declare with an equal expression spelled differently"),
+        ("A B\nloop(i,2)\ndeclare W = A;\n1 1\nend loop\ndeclare W = A;\n", "duplicate declare, one of them in a loop body"),
         ("A B", "header not followed by a line break"),
         ("A B\nloop(i,2)", "truncated after a loop header"),
         ("A B\nwhile(1)", "truncated after a while header"),
@@ -802,6 +819,11 @@ def lines_battery():
     b.append(sc("CLK Y\nC 1\n0 X\n\nC 2\n", [2, 2, 2, 3, 5, 5, 5], "two clocked rows on different lines"))
     b.append(sc("A Y\nX 1\nrepeat(2) 0 X\n1 X", [2, 2, 3, 3, 4], "X expansion, repeat, last line without newline"))
     b.append(sc("A Y\n0 X # trailing comment\n# a\n# b\n# c\n1 X\n", [2, 6], "comment block"))
+    # third round: identical rows on different lines; rows beyond line 65535
+    b.append(sc("A Y\n0 X\n0 X\n0 X\n\n0 X\n", [2, 3, 4, 6], "identical rows on consecutive lines keep their own lines"))
+    b.append(sc("A Y\nloop(i,2)\n1 X\nend loop\n1 X\nX 1\n1 1\n", [3, 3, 5, 6, 6, 7], "a row equal to the last loop row / last expansion"))
+    b.append(sc("A Y\n0 X\n" + "\n" * 65600 + "1 X\nrepeat(2) 0 X\n" + "# c\n" * 4500 + "1 X\n", [2, 65603, 65604, 65604, 70105],
+                "rows beyond line 65535"))
     return b
 
 
@@ -890,6 +912,9 @@ def static_battery():
                       note="an output read after a loop in which a variable had the same name"))
     b.append(Scenario("A Y\nrepeat(2) 1 X\n(n) X\n", S + [("out", "n", 8)], mode="both", default_answer=[0, 6, 2], expect={"static": "err"},
                       note="an output named n read after a repeat"))
+    b.append(Scenario("A Y\nlet Q = 1;\nloop(Y,2)\n(Q+Y) X\nend loop\nrepeat(2) (n+Q) X\n", S + [("out", "n", 8)], mode="both",
+                      default_answer=[40, 50, 60], expect={"static": "ok"},
+                      note="variables and counters named like outputs the driver supplies: static and dynamic rows agree"))
     for k in (1, 2, 4):
         b.append(Scenario(prog, S, mode="both", default_answer=[3, 4], abandon=k, expect={"static": "ok"},
                           note="another iterator over the same test is dropped after %d rows first" % k))
@@ -1009,6 +1034,10 @@ def dig_battery():
                       note="blank lines before the header of a document test are counted"))
     b.append(Scenario(dig_xml(pins, [t3]), [], mode="dig", load="name:" + "blank-first".encode().hex(), default_answer=[0, 0],
                       expect={"dig": "ok", "load": "ok", "lines": [5, 7]}, note="the same, loaded by name"))
+    pinsn = [("In", "N", 8, -1), ("In", "M", 64, -128), ("In", "P", 4, 9), ("Out", "Y", 8, None)]
+    b.append(Scenario(dig_xml(pinsn, [("t", "P Y\n1 1\n")]), [], mode="dig", load="0", default_answer=[0],
+                      expect={"dig": "ok", "signals": ["N:8:in:-1", "M:64:in:-128", "P:4:in:9", "Y:8:out"], "load": "ok",
+                              "row_inputs": [["-1", "-128", "1"]]}, note="negative input defaults are kept"))
     pins3 = pins + [("In", "A_out", 2, 1)]
     b.append(Scenario(dig_xml(pins3, [("t", "A A_out Y\n1 1 1\n")]), [], mode="dig", load="0", default_answer=[0, 0],
                       expect={"dig": "ok", "signals": ["A:4:in:3", "B:1:in:0", "CLK:1:in:0", "D:8:in:Z", "A_out:2:in:1", "Y:8:out", "Q:1:out"],
@@ -1097,6 +1126,13 @@ LAYOUT_PROGRAMS = {
         ["1", "2", "3"],
         ["(", "signExt", "(", "4", ",", "15", ")", ")", "0", "X"],
     ],
+    "rejected-literal": [
+        ["1", "2", "3"],
+        ["9223372036854775808", "1", "1"],
+    ],
+    "rejected-literal-2": [
+        ["18446744073709551615", "1", "1"],
+    ],
     "rejected-row": [
         ["1", "1", "1"],
         ["1", "1"],
@@ -1178,7 +1214,10 @@ def layout_battery():
                 # base line numbers: header is line 1, program line k (0-based) is line k + 2
                 lm = {k + 2: (k + 2 + (len(ins) if k >= at else 0)) for k in range(len(lines))}
                 b.append(sc(name, base, layout_render(new), "%s inserted before program line %d" % (what, at + 1), lm))
-        if name in ("literals", "control", "calls"):
+        for cm in (" # the last row", "#1 2 3", " # 3"):
+            b.append(sc(name, layout_render(lines, last_eol=False), layout_render(lines[:-1] + [lines[-1] + [cm]], "plain", last_eol=False).replace(" " + cm, cm),
+                        "comment %r on the last line, no newline at the end" % cm))
+        if name in ("literals", "control", "calls", "rejected-literal", "rejected-literal-2"):
             for how in ("hex", "HEX", "hex0", "bin", "BIN", "bin0", "oct"):
                 b.append(sc(name, base, layout_render([[_radix(t, how) for t in l] for l in lines]), "integer literals as %s" % how))
     return b
